@@ -19,6 +19,9 @@ def overlapping_exons(case):
     return any(a[0] < b[1] and b[0] < a[1] for i, a in enumerate(parts) for b in parts[i + 1:])
 
 
+C13_LENS = {"A": 40, "B": 100, "regulatorR": 40}      # profile lengths of the C13 universe
+
+
 PREDICATES = {
     # a pool worker that is lost (killed, or left through SystemExit) while holding a task
     "C18-F1": lambda case, clause: case.get("kind") == "lost-worker" and case.get("position", -1) >= 0
@@ -42,8 +45,12 @@ PREDICATES = {
     # a hidden entry (index 8 of the directory menu) as the only foreign content of the output directory
     "C20-F1": lambda case, clause: case.get("kind") == "dir" and 8 in case.get("subset", ()) and clause == "foreign-content-accepted",
     # interplay of the refinement stages (merge -> overlap removal -> incomplete removal): an input is dropped although no kept
-    # hit excuses it; an input-only signature of the three mechanisms matches 91% of all cases, so the clause is the predicate
-    "C13-F1": lambda case, clause: case.get("kind") == "refine" and clause == "input-dropped-without-reason",
+    # hit excuses it, and at least one input is a fragment (half its profile or less) - the displaced-by-a-discarded-fragment family
+    "C13-F1": lambda case, clause: case.get("kind") == "refine" and clause == "input-dropped-without-reason"
+    and any((h[2] - h[1]) / C13_LENS[h[0]] <= 0.5 for h in case["hits"]),
+    # the same clause with complete hits only: the single positional pass of _remove_overlapping() (rising chains)
+    "C13-F2": lambda case, clause: case.get("kind") == "refine" and clause == "input-dropped-without-reason"
+    and all((h[2] - h[1]) / C13_LENS[h[0]] > 0.5 for h in case["hits"]),
     # an unknown identifier substituted into the EXTENDERS clause of a generated rule is accepted
     "C02-F1": lambda case, clause: clause == "accepted-ill-formed" and case.get("kind") == "corrupt" and case.get("op") == "replace"
     and case.get("rep") == "zz" and (bool(case.get("ext")) or case.get("origin") == "file"),
